@@ -44,7 +44,7 @@ R2Q_RANGES = {'small': (0.0, 1e-3), 'mid': (1e-3, 1.5), 'near-pi': (1.5, 1.5707)
 
 for _ax in ('z', 'x', '-y', '236', '122', '403'):
     for _rn, (_lo, _hi) in R2Q_RANGES.items():
-        @claim(f'r2q-roundtrip:{_ax}:{_rn}', split=True, tier='quick' if (_ax == 'z' or (_ax == '236' and _rn in ('mid', 'half-turn'))) else 'thorough')
+        @claim(f'r2q-roundtrip:{_ax}:{_rn}', split=True, tier='quick' if (_ax == 'z' or (_ax == '236' and _rn == 'half-turn')) else 'thorough')
         def _(h, ax=_ax, lo=_lo, hi=_hi):
             """R = rotation by 2*hf about a D-grid axis (hf the half angle): q2r(r2q(R)) = R and r2q(R) = +-(cos hf, sin hf * u)"""
             hf = h.angle('hf', lo, hi)
@@ -138,7 +138,7 @@ def _(h):
         h.unit(u)
         h.sqrt_hint(2 * hf)
     else:
-        u = u / math.sqrt(float(nsq(u)))
+        u = unitize(u)
     w = h.arr([2 * hf * u[0], 2 * hf * u[1], 2 * hf * u[2]])
     R = h.arr(rodrigues_ref(h, u, 2 * hf))
     h.eq('SO3', SO3.EulerVec(w).A, R, tol=1e-6)
@@ -229,7 +229,8 @@ TW_RANGES = {'mid': (1e-3, 3.14), 'near-pi': (3.14, math.pi - 2e-7), 'half-turn-
 
 for _ax in ('z', '236', '122'):
     for _rn, (_lo, _hi) in TW_RANGES.items():
-        @claim(f'twist-roundtrip:{_ax}:{_rn}', values=True, split=True, tier='quick' if _ax in ('z', '236') else 'thorough')
+        @claim(f'twist-roundtrip:{_ax}:{_rn}', values=True, split=True,
+               tier='quick' if (_ax == 'z' or (_ax == '236' and _rn == 'half-turn-band')) else 'thorough')
         def _(h, ax=_ax, lo=_lo, hi=_hi):
             R, th = rot_axis(h, 'th', AXES[ax], lo, hi)
             t = h.vec('t', 3, -1e3, 1e3)
